@@ -22,6 +22,7 @@ LEVEL_TEXT = (
     "CSV reads). Program.run() must raise RecursiveModelStructure: returning normally, a RecursionError or an "
     "UnexpectedError are violations. Acyclic graphs from the same generators must run to completion with every command "
     "executed. Exhaustive for <= 3 commands, sampled for 4-5."
+    ' The generated graphs are also built through add_command (references by name and as Command objects); cycles made of PrintVars commands and cycles behind saturated feeders are in the built-in slice; a sixth of the cyclic source models also goes through the command-line tool (non-zero exit status, recursive-model message).'
 )
 LEVEL_NOTE = "Which commands outside the cycle ran before the rejection is not asserted (the statement does not say)."
 RULE = (
